@@ -191,6 +191,29 @@ def ob_subtotal(si, k0: int, k1: int, k2: int, v0: int, v1: int, v2: int) -> Opt
     return _agrees(_subtotal_eval(num, rect), _expected(name, cells))
 
 
+def _subtotal_multi_eval(num, first, second, third):
+    """=SUBTOTAL(num, A1:B1, D1:E1, F1): every reference after the function number must reach the aggregate"""
+    holder = _CTX.setdefault("mholder", {})
+    holder["A1:B1"], holder["D1:E1"], holder["F1"] = first, second, third
+    key = ("multi", num)
+    if key not in _CTX:
+        ev = ExcelFormula.build_eval_context(lambda a: holder[str(a).split("!")[-1]],
+                                             lambda a: holder[str(a).split("!")[-1]])
+        _CTX[key] = (ev, ExcelFormula(f"=SUBTOTAL({num}, A1:B1, D1:E1, F1)"))
+    ev, formula = _CTX[key]
+    return ev(formula)
+
+
+def ob_subtotal_multi(si, k0: int, k1: int, k2: int, k3: int, v0: int, v1: int, v2: int, v3: int) -> Optional[bool]:
+    """SUBTOTAL(n, ref1, ref2, ref3) aggregates the cells of all its references, like the function it names"""
+    cells = _build(4, (k0, k1, k2, k3), (v0, v1, v2, v3))
+    if cells is None:
+        return None
+    num, name = SUBTOTALS[si]
+    got = _subtotal_multi_eval(num, (cells[:2],), ((cells[2], None),), cells[3])
+    return _agrees(got, _expected(name, cells))
+
+
 # ------------------------------------------------------------------ SUMPRODUCT
 SPV = Union[int, bool, None, str]
 
@@ -251,6 +274,8 @@ def obligations(tier):
         add(f"text_ignored[{name}]", "ob_text_ignored", (name,), None, 60, "aggregate")
     for si in range(len(SUBTOTALS)):
         add(f"subtotal[{SUBTOTALS[si][0]}]", "ob_subtotal", (si,), None, 400, "subtotal")
+    for si in ((1, 4) if tier == "quick" else range(len(SUBTOTALS))):
+        add(f"subtotal_multi[{SUBTOTALS[si][0]}]", "ob_subtotal_multi", (si,), None, 900, "subtotal")
     for r, c in ((1, 1),) + (((1, 2), (2, 1)) if tier == "thorough" else ()):
         add(f"sumproduct[{r}x{c}]", "ob_sumproduct", (r, c), sig(2 * r * c), 200 if r * c < 2 else 900, "sumproduct")
     add("sumproduct_shape", "ob_sumproduct_shape", (), None, 60, "sumproduct")
